@@ -2,7 +2,7 @@
 from checks import actors_common as ac
 
 THEOREMS = ['Poupool.C01.halt_left_only_by_mode_requests', 'Poupool.C01.switch_off_is_high', 'Poupool.C01.pump_speed_one_hot', 'Poupool.C01.filtration_halt', 'Poupool.C01.filtration_halt_accepted_everywhere', 'Poupool.C01.filtration_halt_lands_in_halt', 'Poupool.C01.heating_off_unless_heating_or_forcing', 'Poupool.C01.swim_off_when_halted', 'Poupool.C01.disinfection_cancels_pwm_when_halted', 'Poupool.C01.pwm_on_only_while_armed', 'Poupool.C01.disinfection_slave_ok', 'Poupool.C01.glue_disinfection', 'Poupool.C01.heating_force_slave_ok', 'Poupool.C01.heating_heat_slave_ok', 'Poupool.C01.swim_slave_ok', 'Poupool.C01.glue_swim', 'Poupool.C01.glue_heating_not_forcing', 'Poupool.C01.glue_heating_not_heating', 'Poupool.C01.pwm_slave_ok', 'Poupool.C01.glue_pwm']
-COMPOSE = ['Poupool.ComposeProps.tells_filtDis', 'Poupool.ComposeProps.filtDis_discipline', 'Poupool.ComposeProps.filtDis_composed_halt', 'Poupool.ComposeProps.tells_filtSwim', 'Poupool.ComposeProps.filtSwim_discipline', 'Poupool.ComposeProps.filtSwim_composed_halt', 'Poupool.ComposeProps.tells_filtHeat', 'Poupool.ComposeProps.filtHeat_discipline', 'Poupool.ComposeProps.filtHeat_composed_halt', 'Poupool.ComposeProps.tells_filtHeatSched', 'Poupool.ComposeProps.filtHeatSched_discipline', 'Poupool.ComposeProps.filtHeatSched_composed', 'Poupool.ComposeProps.tells_disPwm', 'Poupool.ComposeProps.disPwm_discipline', 'Poupool.ComposeProps.disPwm_composed_halt', 'Poupool.ComposeProps.tells_disPwmCl', 'Poupool.ComposeProps.disPwmCl_discipline', 'Poupool.ComposeProps.disPwmCl_composed_halt', 'Poupool.ComposeProps.filtDis_demo', 'Poupool.ComposeProps.filtSwim_demo', 'Poupool.ComposeProps.filtHeat_demo', 'Poupool.ComposeProps.disPwm_demo']
+COMPOSE = ['Poupool.ComposeProps.only_master_starts', 'Poupool.ComposeProps.tells_filtDis', 'Poupool.ComposeProps.filtDis_discipline', 'Poupool.ComposeProps.filtDis_composed_halt', 'Poupool.ComposeProps.tells_filtSwim', 'Poupool.ComposeProps.filtSwim_discipline', 'Poupool.ComposeProps.filtSwim_composed_halt', 'Poupool.ComposeProps.tells_filtHeat', 'Poupool.ComposeProps.filtHeat_discipline', 'Poupool.ComposeProps.filtHeat_composed_halt', 'Poupool.ComposeProps.tells_filtHeatSched', 'Poupool.ComposeProps.filtHeatSched_discipline', 'Poupool.ComposeProps.filtHeatSched_composed', 'Poupool.ComposeProps.tells_disPwm', 'Poupool.ComposeProps.disPwm_discipline', 'Poupool.ComposeProps.disPwm_composed_halt', 'Poupool.ComposeProps.tells_disPwmCl', 'Poupool.ComposeProps.disPwmCl_discipline', 'Poupool.ComposeProps.disPwmCl_composed_halt', 'Poupool.ComposeProps.filtDis_demo', 'Poupool.ComposeProps.filtSwim_demo', 'Poupool.ComposeProps.filtHeat_demo', 'Poupool.ComposeProps.disPwm_demo']
 MODULE = "Poupool.Properties.C01"
 
 
